@@ -226,6 +226,19 @@ impl<K: PartialEq, V, S> HashMap<K, V, S> {
         }
     }
 }
+impl<K, Q: ?Sized, V, S> std::ops::Index<&Q> for HashMap<K, V, S>
+where
+    K: PartialEq + Borrow<Q>,
+    Q: PartialEq,
+{
+    type Output = V;
+    fn index(&self, k: &Q) -> &V {
+        match self.get(k) {
+            Some(v) => v,
+            None => panic!("verif_map: no entry found for key"),
+        }
+    }
+}
 pub struct Iter<'a, K, V> {
     items: &'a [Option<(K, V)>; CAP],
     n: usize,
